@@ -79,57 +79,38 @@ pub fn string_ref(vm: &mut Vm) -> Result<VCell, Error> {
     let s = s.borrow();
     match s.chars().nth(idx) {
         Some(c) => Ok(c.into()),
-        None => Err(InvalidStringIndex(idx, s.chars().count() - 1)),
+        None => Err(InvalidStringIndex(idx, s.chars().count().saturating_sub(1))),
     }
 }
 
-fn char_offset(s: &str, idx: usize) -> Result<usize, Error> {
-    s.char_indices()
-        .nth(idx)
-        .map(|it| it.0)
-        .ok_or_else(|| InvalidStringIndex(idx, s.chars().count() - 1))
-}
-
-fn char_offset_inclusive(s: &str, idx: usize) -> Result<usize, Error> {
-    s.char_indices()
-        .nth(idx)
-        .map(|it| it.0 + it.1.len_utf8())
-        .ok_or_else(|| InvalidStringIndex(idx, s.chars().count() - 1))
-}
-
+/// Validate a character range and translate it to a byte range.
+///
+/// `start` and `end` are character indices with 0 <= start <= end <= length;
+/// anything else is an error, including an empty range that lies beyond the end.
 fn char_substring_offset(
     s: &str,
     start: Option<usize>,
     end: Option<usize>,
 ) -> Result<(usize, usize), Error> {
     let len = s.chars().count();
+    let start = start.unwrap_or(0);
+    let end = end.unwrap_or(len);
 
-    if let (Some(start), Some(end)) = (start, end) {
-        if start == end {
-            return Ok((0, 0));
-        }
-        if end < start {
-            return Err(InvalidSyntax(
-                "invalid substring indices: end < start".into(),
-            ));
-        }
+    // the error carries the largest valid index, as string-ref reports it
+    if start > len {
+        return Err(InvalidStringIndex(start, len.saturating_sub(1)));
+    }
+    if end > len {
+        return Err(InvalidStringIndex(end, len.saturating_sub(1)));
+    }
+    if end < start {
+        return Err(InvalidSyntax(
+            "invalid substring indices: end < start".into(),
+        ));
     }
 
-    if start == Some(len) {
-        return Ok((0, 0));
-    }
-
-    let start = match start {
-        Some(start) => char_offset(s, start)?,
-        None => 0,
-    };
-
-    let end = match end {
-        Some(end) => char_offset_inclusive(s, end - 1)?,
-        None => s.len(),
-    };
-
-    Ok((start, end))
+    let byte_offset = |idx: usize| s.char_indices().nth(idx).map(|it| it.0).unwrap_or(s.len());
+    Ok((byte_offset(start), byte_offset(end)))
 }
 
 pub fn string_list(vm: &mut Vm) -> Result<VCell, Error> {
@@ -246,13 +227,8 @@ pub fn string_fill(vm: &mut Vm) -> Result<VCell, Error> {
     let mut s = s.borrow_mut();
     let s = s.deref_mut();
 
-    let count = match (start, end) {
-        (Some(start), Some(end)) if end >= start => end - start,
-        (Some(start), None) => s.chars().count() - start,
-        _ => s.chars().count(),
-    };
-
     let (start, end) = char_substring_offset(s, start, end)?;
+    let count = s[start..end].chars().count();
     let fill = std::iter::repeat_n(c, count).collect::<String>();
 
     s.replace_range(start..end, &fill);
@@ -268,7 +244,7 @@ pub fn string_set(vm: &mut Vm) -> Result<VCell, Error> {
     let range = s
         .char_indices()
         .nth(idx)
-        .ok_or_else(|| InvalidStringIndex(idx, s.chars().count() - 1))
+        .ok_or_else(|| InvalidStringIndex(idx, s.chars().count().saturating_sub(1)))
         .map(|it| (it.0, it.0 + it.1.len_utf8()))?;
     s.replace_range(range.0..range.1, &c.to_string());
     Ok(VCell::void())
